@@ -34,12 +34,17 @@ class AnsiFormatter(Formatter):
 
     def format(self, string, style=None):  # type: (str, Optional[Style]) -> str
         if style is not None:
-            self._formatter._style_stack.push(StyleConverter.convert(style))
+            pastel_style = StyleConverter.convert(style)
+            self._formatter._style_stack.push(pastel_style)
 
         formatted = self._formatter.colorize(string)
 
         if style is not None:
             self._formatter._style_stack.pop()
+
+            if formatted and not self._formatter.FULL_TAG_REGEX.search(string):
+                # Pastel returns a string without any tag untouched
+                formatted = pastel_style.apply(formatted)
 
         return formatted
 
